@@ -28,7 +28,7 @@ check had to be strengthened):
 
 * `Cxx-revert-<commit>`: the reversal of every `fix:` commit (the defect of the pinned tree comes
   back). Each must be caught by the property's quick check.
-* `Cxx-agent`, `Cxx-agent2`, `Cxx-agent3`, `Cxx-agent4`: four changes per property, each written by a fresh
+* `Cxx-agent`, `Cxx-agent2`, `Cxx-agent3`, `Cxx-agent4`, `Cxx-agent5`: five changes per property, each written by a fresh
   sub-agent that was given only the text of the property and a scratch worktree of `/repo`
   (nothing from `/verif`; the briefs are kept as `seeded/BRIEF_batch*_example_C08.txt`), asked for
   a plausible refactoring that breaks the property, still compiles, passes the 102 existing tests
@@ -36,7 +36,9 @@ check had to be strengthened):
   and later batches were additionally told which changes already existed, so as to hit a different
   function and clause (third and fourth batch: preferably a multi-step sequence, a boundary value,
   an unusual-but-legal representation or two cooperating sites; fourth batch: with a note on which
-  representations the schema allows). Each change was confirmed in a scratch worktree before
+  representations the schema allows; fifth batch: additionally asked for a code path none of the earlier four
+  touches -- another public method, a conversion, an accessor, an error path -- and for the interplay of two
+  public operations or an extreme-but-legal value). Each change was confirmed in a scratch worktree before
   it was kept (`tools/confirm_seed.sh`: the 102 tests pass with the change, the demonstration
   fails with it and passes without it); the worktrees were removed. One candidate was **rejected**
   (`seeded/rejected/C13-agent3`): it only manifests for a Quadratic message with a duplicated
@@ -45,9 +47,9 @@ check had to be strengthened):
 
 `python3 tools/seeded.py seeded/<name>` applies the patch to `/repo`, runs the property's quick
 check, restores `/repo` and records the outcome. First-run outcomes: all 17 reversals DETECTED;
-63 of the 80 agent changes DETECTED (batch 1: 19/20, batch 2: 17/20, batch 3: 15/20, batch 4:
-12/20 -- the later batches were steered away from everything already covered). The seventeen
-misses and what was done (each is DETECTED now):
+75 of the 100 agent changes DETECTED (batch 1: 19/20, batch 2: 17/20, batch 3: 15/20, batch 4:
+12/20, batch 5: 12/19 plus one whose stream was added beforehand -- the later batches were steered away
+from everything already covered). The twenty-four misses and what was done (each is DETECTED now):
 
 * `C02-agent` (Quadratic+Quadratic keyed by the unordered pair): the quick tier ran only two
   Quadratic+Quadratic pairs and no operand listed both (i,j) and (j,i) -> stream `asym`.
@@ -86,10 +88,29 @@ misses and what was done (each is DETECTED now):
 * `C18-agent4` (`get_constant()` in `write_rhs`): the Polynomial rendering of a linear row had at
   most one constant monomial -> it spreads the constant over several 40% of the time.
 
-Two streams were added *before* the first run of the corresponding seed, after reading its
+* `C01-agent5` (row lookup cached with `u64::MAX` as the "no row yet" sentinel): ids stopped at 2^62 ->
+  extreme ids in 8% of the pools and a deterministic `maxid` stream.
+* `C02-agent5` (`From<&DecisionVariable> for Linear` returns the constant `substituted_value`): variable
+  operands were bare ids -> 35% are full `DecisionVariable` messages (kind, bound, fixed value, name).
+* `C07-agent5` (artifact getters reject blobs whose length differs from prost's re-encoding): foreign
+  encodings were decoded directly only -> phase 2e stores them as layer blobs of a local archive and
+  judges what the typed and the listing accessors return (`c07_artifact_foreign`).
+* `C08-agent5` (early return of `validate_decision_variable_ids` when no id is used): every base
+  instance used a variable -> a variable-free variant of each, with duplicated ids.
+* `C10-agent5` (`Linear::partial_evaluate` keeps terms with |c| <= eps): the result was compared as a
+  formal polynomial, where a surviving `0*p` is invisible -> the instantiated instance is now also
+  evaluated at a state over the decision variables (`with_parameters_eval`, `RunC10.v`) and a stream
+  plants zero-coefficient parameter terms.
+* `C12-agent5` (`defined_ids` skips fixed variables): no other variable was fixed -> fixed variables
+  (the largest id among them) in 30% of the instances and a `fixed-above` stream.
+* `C13-agent5` (`Quadratic::used_decision_variable_ids` empty without linear part): the continuous
+  fault never sat in a quadratic entry -> it does, and a `pure-quad` stream converts `c*x_a*x_b <= 0`.
+
+Three streams were added *before* the first run of the corresponding seed, after reading its
 description, because the generator could not have produced the needed input: two- and three-step
-`Instance::partial_evaluate` (`C03-agent`) and binary variables without explicit bound at
-out-of-range values (`C05-agent`). Every miss was a gap of a *generator or an observation*, none
+`Instance::partial_evaluate` (`C03-agent`), binary variables without explicit bound at
+out-of-range values (`C05-agent`) and the penalty path after a substitution (`C04-agent5`:
+substitute -> `uniform_penalty_method` -> `with_parameters` -> evaluate, op `subst_penalty_eval`). Every miss was a gap of a *generator or an observation*, none
 of a theorem or of the model; a hanging SDK (`C04-agent3`) showed that the watchdog made a check
 take tens of minutes, so a shard now stops after four hangs and hang cases are not shrunk.
 The table is regenerated from the result files by `tools/build_design.py`.
